@@ -269,6 +269,7 @@ class C01(CheckBase):
                 if r["rv"] == 0:
                     sessions.append((r["h"], t, rw))
                     ctx.count("fresh_sessions_probed")
+        default_done = set()
         for (s, t, rw) in sessions:
             user_here = m.login[t] == USER
             user_on_a = m.login["A"] == USER
@@ -382,6 +383,39 @@ class C01(CheckBase):
                 r = p.FindAll(s, [(C.CKA_LABEL, b"probe-created")])
                 if r.get("hs"):
                     raise Violation("C01|creators|%s|object-left-behind-by-refused-creation" % sname, {"handles": r["hs"]})
+            # 4. creators that do NOT name CKA_PRIVATE: whatever the class's default is, a session without user login must not end up having created a private
+            #    object (the object the call made is read back through the creating session: CKA_PRIVATE must be readable there and false)
+            if not user_here and (sname, t) not in default_done:
+                default_done.add((sname, t))      # once per kind of session and token in this state
+                dlines, dplan = [], []
+                for kind in F.NINE + ["dh_params"]:
+                    for token in ((0, 1) if rw else (0,)):
+                        T = [x for x in F.template(kind, token=bool(token), private=False, label=b"probe-default") if x[0] != C.CKA_PRIVATE]
+                        dlines.append("C_CreateObject s=%d tpl=%s" % (s, tpl(T)))
+                        dplan.append(("create-default-privacy", kind, token))
+                for token in ((0, 1) if rw else (0,)):
+                    dlines.append("C_GenerateKey s=%d mech=%s tpl=%s" % (s, mech(C.CKM_AES_KEY_GEN), tpl([(C.CKA_VALUE_LEN, 16), (C.CKA_TOKEN, bool(token)), (C.CKA_LABEL, b"probe-default")])))
+                    dplan.append(("generate-default-privacy", "aes", token))
+                    ec = F.H(F.KEYS["ec256"]["params"])
+                    dlines.append("C_GenerateKeyPair s=%d mech=%s pub=%s priv=%s" % (s, mech(C.CKM_EC_KEY_PAIR_GEN), tpl([(C.CKA_EC_PARAMS, ec), (C.CKA_TOKEN, bool(token))]),
+                                                                                       tpl([(C.CKA_TOKEN, bool(token)), (C.CKA_LABEL, b"probe-default")])))
+                    dplan.append(("generate-pair-default-privacy", "ec", token))
+                d1 = ctx.sh.depth
+                ctx.sh.snap()
+                try:
+                    for r, (name, kind, token) in zip(p.batch(dlines), dplan):
+                        ctx.count("default_privacy_creator_probes")
+                        for hk in ("h", "hpub", "hpriv"):
+                            hh = r.get(hk, 0)
+                            if r["rv"] != 0 or not hh:
+                                continue
+                            ctx.count("default_privacy_objects_created")
+                            rv, v = p.get_attr(s, hh, C.CKA_PRIVATE)
+                            if rv != 0 or v not in (False, b"\x00"):
+                                ctx.report("C01|%s|%s|%s|%s|object-created-without-login-is-private" % (name, sname, kind + ("-" + hk if hk != "h" else ""), "token" if token else "session"),
+                                           {"rv_reading_CKA_PRIVATE": rv, "CKA_PRIVATE": v, "session": s})
+                finally:
+                    ctx.sh.unwind(d1)
             if helper:
                 p.DestroyObject(s, helper)
         ctx.count("states_probed")
